@@ -13,7 +13,8 @@ VARIABLES l, st, failed, done
 
 T == INSTANCE Transformer WITH PNames <- PoolPNames, PVals <- PoolPVals, FNames <- PoolFNames,
                                params <- st.params, fns <- st.fns, liveSS <- st.liveSS, nSS <- st.nSS,
-                               liveSrc <- st.liveSrc, nSrc <- st.nSrc, lastError <- st.lastError, oracle <- st.oracle
+                               liveSrc <- st.liveSrc, nSrc <- st.nSrc, lastError <- st.lastError, oracle <- st.oracle,
+                               residue0 <- st.residue0
 
 RoleOk(ev) == ev.e = "Fresh" => ev.status = StatusOf(Class(ev.ss, ev.src, ev.params, ev.fns))
 
